@@ -17,22 +17,22 @@ import (
 )
 
 type specVal struct {
-	term string
-	typ  types.Type
-	sort string // overrides sortOf(typ) when typ is nil
-	vspace bool // a struct *value* (value object) rather than an addressable struct variable
+	term   string
+	typ    types.Type
+	sort   string // overrides sortOf(typ) when typ is nil
+	vspace bool   // a struct *value* (value object) rather than an addressable struct variable
 }
 
 type specCtx struct {
-	vc    *VC
-	fr    *Frame
-	st    *State
-	old   *State
-	bound map[string]specVal
-	block *ssa.BasicBlock
-	pkg   *types.Package
-	depth int
-	nowSt *State
+	vc       *VC
+	fr       *Frame
+	st       *State
+	old      *State
+	bound    map[string]specVal
+	block    *ssa.BasicBlock
+	pkg      *types.Package
+	depth    int
+	nowSt    *State
 	nowBlock *ssa.BasicBlock
 }
 
@@ -1378,7 +1378,6 @@ func (vc *VC) modTargetSVs(callee *ssa.Function, target string) []string {
 	}
 	return nil
 }
-
 
 func isNumeral(t string) bool {
 	if t == "" {
